@@ -17,6 +17,8 @@ package netstate
 //@ macro wf(m) = wfA(m) && wfB(m)
 
 //@ func (*Watcher).Subscribe
+// lookup and registration happen in one critical section (two concurrent first subscribers must not each create the per-interface map)
+//@   opt onelock [C19]
 //@   opt guarded m mu [C19]
 //@   requires P1: wfA(w.m) && lockGet(ghost.lockDepth, fieldaddr(w, "mu")) == 0
 //@   assigns ghost.lockDepth, ghost.chIface, ghost.chMask, ghost.chIdx, ghost.mapIface, key(MD_Int_Int), key(MV_Int_Int), key(MD_Int_Slice), key(MV_Int_Slice), brk
